@@ -6,6 +6,7 @@ import (
 	"fmt"
 	"os"
 	"os/exec"
+	"runtime"
 	"strings"
 	"time"
 )
@@ -24,7 +25,26 @@ func WorkerMain(args []string) int {
 		fmt.Fprintln(os.Stderr, "unknown worker", args[0])
 		return 2
 	}
+	startMemoryGuard(3 << 30)
 	return f(args[1:])
+}
+
+// startMemoryGuard: a child that runs the real code on hostile input must not
+// take the machine down when a defect makes it allocate without bound (the
+// sandbox has no memory limit). Past the budget the child says so and dies;
+// the parent attributes the death to the input that was being processed.
+func startMemoryGuard(limit uint64) {
+	go func() {
+		var ms runtime.MemStats
+		for {
+			time.Sleep(100 * time.Millisecond)
+			runtime.ReadMemStats(&ms)
+			if ms.HeapAlloc > limit {
+				fmt.Fprintf(os.Stderr, "MEMORY-BUDGET: heap of %d MiB exceeds the worker's budget of %d MiB\n", ms.HeapAlloc>>20, limit>>20)
+				os.Exit(3)
+			}
+		}
+	}()
 }
 
 type WorkerResult struct {
